@@ -12,6 +12,7 @@ wrapper declares `IndexingSupport.BASIC` (`Gen.indexingSupport`, regenerated fro
 import Alos2.Model.Array
 import Alos2.Gen.Consts
 import Alos2.Proofs.Array
+import Alos2.Proofs.ReaderPixels
 
 namespace Alos2.C02
 
@@ -26,6 +27,38 @@ theorem getitem_eq_np (img : Image) (full : List (List Bytes)) (h : Loaded img f
     (hrpc : 0 < img.rpc) (k0 k1 : Idx) :
     (getitem img k0 k1).1 = npIndex full img.ncols k0 k1 :=
   Alos2.getitem_eq_npIndex img full h.load h.rect hrpc k0 k1
+
+/-- THE SAME FOR THE ARRAY THE READER BUILDS from an image file (layout-based reader, `Model/Product.lean`): for a well-framed,
+    self-consistent file the loaded image `full` consists of the file's own samples (C01 `reader_pixel_fidelity`) and EVERY basic
+    selection on the lazy array equals NumPy indexing of `full` — for every positive `records_per_chunk` -/
+theorem reader_getitem_eq_np (file : Bytes) (name : String) (rpc : Nat) (gname : String) (g : ImageGroup)
+    (h : openImageFile file name rpc = .ok (gname, g))
+    (header : Val) (recs : List Val) (hr : readImageRecords file rpc = .ok (header, recs))
+    (hrpc : 0 < rpc) (hn : 0 < recs.length)
+    (L : Nat) (hL : 0 < L) (hdrL : intAt header ["sar_data_record_length"] = .ok (L : Int))
+    (hrl : ∀ r ∈ recs, intAt r ["preamble", "record_length"] = .ok (L : Int))
+    (t : Nat) (ht : t = 10 ∨ t = 11) (hty : ∀ r ∈ recs, intAt r ["preamble", "record_type"] = .ok (t : Int))
+    (m bpp : Nat) (dt : String)
+    (hbpp : Gen.dtypes.find? (fun d => d.1 = g.array.typeCode) = some (g.array.typeCode, dt, bpp))
+    (hshape : g.array.shape = (((recs.length : Nat) : Int), ((m : Nat) : Int)))
+    (hLm : L = prefixOf t + m * bpp) :
+    ∃ full : List (List Bytes), full.length = recs.length ∧
+      (∀ i, i < recs.length → ∀ j, j < m →
+        (full.getD i []).getD j [] = slice file (720 + i * L + prefixOf t + j * bpp) (720 + i * L + prefixOf t + (j + 1) * bpp)) ∧
+      ∀ k0 k1 : Idx, (getitem (imageOfMeta file g.array bpp) k0 k1).1 = npIndex full m k0 k1 := by
+  obtain ⟨himg, hb, hsize⟩ := reader_image_is_regular file name rpc gname g h header recs hr hrpc hn L hL hdrL hrl t ht hty m bpp dt
+    hbpp hshape hLm
+  let g' : Geometry := { n := recs.length, m := m, bpp := bpp, P := prefixOf t, code := t }
+  have hgL : g'.L = L := hLm.symm
+  obtain ⟨full, hload, hlen, hrect, hpix⟩ := Geometry.loadAll_regular g' file hb (by rw [hgL]; exact hsize) rpc
+  refine ⟨full, hlen, ?_, ?_⟩
+  · intro i hi j hj
+    have := hpix i hi j hj
+    rw [hgL] at this
+    exact this
+  · intro k0 k1
+    rw [himg]
+    exact getitem_eq_np (g'.image file rpc) full ⟨hload, hrect⟩ (normalizeChunksize_pos rpc g'.n hrpc hn) k0 k1
 
 /-- xarray decomposes every outer / vectorised / boolean indexer into a key of this class plus NumPy
     post-indexing *because* the wrapper declares BASIC support (re-read from the source on every run). -/
